@@ -251,6 +251,17 @@ pub fn generate_and_run(seed: u64, tier: &str, cases_w: &mut dyn Write, impl_w: 
 			}));
 			record("panicking writer", if r.is_ok() { "returned" } else { "clean panic" }, &mut st, cases_w, impl_w);
 		}
+		// readers whose claim reaches and passes the end of the 16 KiB buffer they were given, lying from the first, second or
+		// third call, through the chunker and through a whole translation with the format named
+		for excess in [16384usize - 9, 16384 - 8, 16384, 16385, 20000, 1 << 20] {
+			for from_call in 0..3 {
+				let mk = || Liar { inner: SchedReader::new(data, Sched::Fixed(9), None), excess, from_call, calls: 0 };
+				let r = catch_unwind(AssertUnwindSafe(|| xt::verif::yaml_chunks(mk()).len()));
+				record("over-reporting past the buffer (chunker)", if r.is_ok() { "returned" } else { "clean panic" }, &mut st, cases_w, impl_w);
+				let r = catch_unwind(AssertUnwindSafe(|| xt::translate_reader(mk(), Some(xt::Format::Yaml), xt::Format::Json, io::sink()).is_ok()));
+				record("over-reporting past the buffer (translate)", if r.is_ok() { "returned" } else { "clean panic" }, &mut st, cases_w, impl_w);
+			}
+		}
 		// a reader that over-reports by more than libyaml's whole buffer
 		let mk = || Liar { inner: SchedReader::new(data, Sched::Full, None), excess: 1 << 20, from_call: 0, calls: 0 };
 		let r = catch_unwind(AssertUnwindSafe(|| xt::verif::yaml_events(mk()).len()));
